@@ -7,15 +7,19 @@ TEXT = {
            "every value below 2^28, every suffix, every byte string and every reader schedule - no enumeration. The model's "
            "vbint encoder/decoders are run against the Go ones (hooks) on boundaries, stratified values and all short byte strings "
            "(thorough: all 2^28 values, all strings <= 3 bytes) on every run. C15_encoder_is_the_source: the encoder the theorems speak about is the loop of vbint.fill "
-           "as it stands in the source - translated statement by statement on every run, the run of the statement list proved equal to the model's encoder for every value, buffer and position.",
+           "as it stands in the source - translated statement by statement on every run, the run of the statement list proved equal to the model's encoder for every value, buffer and position; "
+           "C15_decoder_is_the_source: likewise the in-memory decoder is the run of the regenerated statement list of vbint.UnmarshalBinary, for every byte string.",
   "note": NOTE,
   "technique": "Coq proof (div/mod-128 characterisation, lia) + Go-vs-extracted-model correspondence + exhaustive oracle",
  },
  "C04": {
   "level": "Theorems C04_unmarshal (for every packet type, receiver state and byte string UnmarshalBinary does not panic - Panic being what every "
            "out-of-range index/slice, negative make and nil will produce in the model), C04_read_total (ReadPacket over any reader script returns "
-           "exactly one of packet/error) and C04_program (any IR decoder passing the static will-allocation check is panic-free). Model tied to the "
-           "Go decoders by correspondence on hostile frames with PANIC as observable; direct oracle on the implementation.",
+           "exactly one of packet/error) and C04_program (any IR decoder passing the static will-allocation check is panic-free). "
+           "C04_wire_decoders_are_the_source: UnmarshalBinary of the nine wire types is translated statement by statement on every run (tools/gosync/wire.go); the regenerated "
+           "statement lists are the model's and running them is - for every receiver value and byte string - the decoder of Model/Wire.v the theorems start from: same value, same error class, "
+           "panic exactly where it panics. The packet-level decoders are tied by the regenerated decoder IR, buffer.go/packet.go by fingerprints; all of it also by correspondence "
+           "on hostile frames with PANIC as observable; direct oracle on the implementation.",
   "note": NOTE,
   "technique": "Coq proof (invariant of the guarded reader pushed through every IR constructor) + correspondence + panic oracle",
  },
